@@ -664,6 +664,51 @@ def d_autocorr(ctx, inputs, paths, ref, opt):
                     actual=list(zip(ls[0][0].tolist(), ls[0][1].tolist()))[:4])
 
 
+def d_igncontrib(ctx, inputs, paths, ref, opt):
+    thr, bin_type = opt
+    r, fig, out = render(paths + ["-m", "igncontrib", "-r", gen.fmt_num(thr), "-b", bin_type])
+    if r.kind != "ok":
+        return ctx.fail("igncontrib:%s:%s" % (r.kind, r.site or "rejected"))
+    lbl = lines_by_label(fig)
+    count_axes = [ax for ax in fig.axes if ax.get_ylabel() == "N"]
+    nb = 11
+    for i, ai in enumerate(inputs):
+        rows = event_rows(ref, i, thr, bin_type)
+        exp_n, exp_x, exp_y = [], [], []
+        for j in range(nb):
+            lo, hi = j / float(nb), (j + 1) / float(nb)
+            sel = [(o, p) for o, p in rows if (lo <= p < hi) or (j == nb - 1 and p == 1.0)]
+            exp_n.append(float(len(sel)))
+            if sel:
+                exp_x.append(MP._mean([p for o, p in sel]))
+                tot = 0.0
+                for o, p in sel:
+                    q = p if o == 1 else 1 - p
+                    tot += float("inf") if q <= 0 else -math.log(q, 2)
+                exp_y.append(tot / len(rows) * nb)
+            else:
+                exp_x.append(float("nan"))
+                exp_y.append(float("nan"))
+        if count_axes and len(count_axes[0].get_lines()) >= len(inputs):
+            ln = count_axes[0].get_lines()[i]
+            got_n = [float(v) for v in ln.get_ydata()]
+            if abs(sum(got_n) - len(rows)) > 1e-9:
+                ctx.fail("igncontrib:case-not-in-exactly-one-bin", in_bins=sum(got_n), valid_cases=len(rows), probabilities_equal_to_1=sum(1 for o, p in rows if p == 1.0))
+                continue
+            ctx.require(all(abs(a - b) < 1e-9 for a, b in zip(exp_n, got_n)), "igncontrib:bin-counts", input=ai.name, expected=exp_n, actual=got_n)
+        ls = one_line(ctx, lbl, ai.name, "igncontrib")
+        if ls:
+            got = list(zip(ls[0][0], ls[0][1]))
+            exp = list(zip(exp_x, exp_y))
+            ok = len(exp) == len(got)
+            for (a, b), (c, d) in zip(exp, got):
+                for u, v in ((a, c), (b, d)):
+                    if (math.isnan(u) and math.isnan(v)) or (math.isinf(u) and math.isinf(v)) or (not math.isnan(u) and not math.isnan(v) and abs(u - v) <= 1e-6 * max(1, abs(u))):
+                        continue
+                    ok = False
+            ctx.require(ok, "igncontrib:curve", input=ai.name, expected=exp, actual=[(float(a), float(b)) for a, b in got])
+
+
 DIAGRAMS = {
     "standard": (d_standard, [("mae", "leadtime"), ("mae", "location"), ("corr", "time"), ("ets", "leadtime"), ("bs", "leadtime"), ("rmse", "no"), ("bias", "month"), ("mae", "leadtimeday")]),
     "obsfcst": (d_obsfcst, ["leadtime", "time", "location", ("leadtime", (0.1, 0.9)), ("location", (0.9, 0.5, 0.1))]),
@@ -686,6 +731,7 @@ DIAGRAMS = {
     "droc": (d_droc, [("droc", 2.0), ("droc0", 2.0), ("droc", 1.0)]),
     "invreliability": (d_invreliability, [0.5, 0.1]),
     "autocorr": (d_autocorr, ["leadtime", "time"]),
+    "igncontrib": (d_igncontrib, [(2.0, "above"), (1.0, "below")]),
 }
 
 
